@@ -254,6 +254,8 @@ func optsCmd(opts []string) string { return "(" + strings.Join(opts, " ") + ")" 
 
 // executeObs is the canonical observation of CreateFilter + Execute.
 func executeObs(expr string, data interface{}) (out string, res interface{}) {
+	enter("CreateFilter+Execute", expr, data)
+	defer leave()
 	defer func() {
 		if p := recover(); p != nil {
 			out, res = "PANIC", nil
@@ -293,6 +295,8 @@ func executeObs(expr string, data interface{}) (out string, res interface{}) {
 
 // executeWith is the canonical observation of Execute on an existing filter.
 func executeWith(f *bexpr.Filter, data interface{}) (out string) {
+	enter("Execute", "(a filter)", data)
+	defer leave()
 	defer func() {
 		if p := recover(); p != nil {
 			out = "PANIC"
@@ -642,7 +646,7 @@ func runC18(r *Run) {
 		unk    interface{}
 		budget uint64
 	}
-	settings := []setting{{"bexpr", 1, 1, 0}, {"alt", 2, "a", 1000000}, {"bexpr", 5, nil, 0}, {"alt", 3, nil, 0}, {"bexpr", 2, nil, 5}, {"alt", 4, 1, 1000000}}
+	settings := []setting{{"bexpr", 1, 1, 0}, {"alt", 2, "a", 1000000}, {"bexpr", 5, nil, 5}, {"alt", 3, nil, 0}, {"bexpr", 2, nil, 5}, {"alt", 4, 1, 1000000}}
 	if r.Tier == "quick" {
 		settings = settings[:4]
 	}
